@@ -124,7 +124,7 @@ class Engine:
         for _ in range(n_ops):
             k = o.random()
             doc = o.choice(docs)
-            if k < 0.46:
+            if k < 0.42:
                 reuse = o.choice(sorted(settings_objs)) if o.random() < 0.55 else None
                 op = {"op": "dparse", "doc": doc,
                       "cfg": settings_objs[reuse]["cfg"] if reuse else o.choice(cids),
@@ -133,10 +133,10 @@ class Engine:
                 ops.append(op)
                 if o.random() < 0.12:
                     ops.append(dict(op))  # the same operation twice in a row (I-REP)
-            elif k < 0.58:
+            elif k < 0.54:
                 m = o.choice(sorted(mds))
                 ops.append({"op": "mdit", "doc": doc, "md": m, "cfg": mds[m]})
-            elif k < 0.66 and sphinx_ops < max_sphinx:
+            elif k < 0.62 and sphinx_ops < max_sphinx:
                 sphinx_ops += 1
                 op = {"op": "sphinx", "cfg": o.choice(cids), "builder": o.choice(["xml", "xml", "html"])}
                 if o.random() < 0.5:
@@ -146,12 +146,12 @@ class Engine:
                     op["cfg"] = sphinx_shared_cfg
                     op["extra_conf"] = sphinx_shared_extra
                 ops.append(op)
-            elif k < 0.71:
+            elif k < 0.67:
                 ops.append({"op": "anchors", "doc": doc, "level": o.choice([1, 2, 6])})
-            elif k < 0.75:
+            elif k < 0.71:
                 ops.append({"op": "inv_cli", "args": o.choice([[], ["-d", "py"], ["-n", "foo*"], ["-f", "json"],
                                                                 ["-o", "label", "-l", "*.html*"]])})
-            elif k < 0.77:
+            elif k < 0.755:
                 ops.append({"op": "html5_demo", "doc": doc, "opts": o.choice([
                     {}, {}, {"myst_enable_extensions": ["deflist", "colon_fence", "substitution", "smartquotes"]},
                     {"myst_heading_anchors": 2}, {"myst_substitutions": {"key1": "demo value"}},
@@ -343,6 +343,11 @@ class Engine:
                 if key == "inventories":
                     continue
                 yield {**plan, "configs": {**plan["configs"], cid: {k: v for k, v in cfg.items() if k != key}}}
+            for key in sorted(cfg):
+                val = cfg[key]
+                if isinstance(val, list) and len(val) > 1:
+                    for j in range(len(val)):
+                        yield {**plan, "configs": {**plan["configs"], cid: {**cfg, key: val[:j] + val[j + 1:]}}}
 
 
 ABORT_BODIES = [
